@@ -1,4 +1,5 @@
 """A job that says when it has started and runs until a `go` file appears."""
+import sys
 import time
 from pathlib import Path
 
@@ -10,6 +11,9 @@ class HoldTask(Task):
     x: Param[int]
 
     def execute(self):
+        if (self.dir / ("fail.%d" % self.x)).exists():
+            # first run of a job that is relaunched later: it fails
+            sys.exit(1)
         (self.dir / ("started.%d" % self.x)).write_text(str(time.time()))
         limit = time.time() + 60
         while not (self.dir / "go").is_file() and time.time() < limit:
